@@ -11185,6 +11185,7 @@ impl<'a> Parser<'a> {
 
     /// Parse a comma-delimited list of projections after SELECT
     pub fn parse_select_item(&mut self) -> Result<SelectItem, ParserError> {
+        let start = self.peek_token().location;
         match self.parse_wildcard_expr()? {
             Expr::QualifiedWildcard(prefix) => Ok(SelectItem::QualifiedWildcard(
                 prefix,
@@ -11194,10 +11195,7 @@ impl<'a> Parser<'a> {
                 self.parse_wildcard_additional_options()?,
             )),
             Expr::Identifier(v) if v.value.to_lowercase() == "from" && v.quote_style.is_none() => {
-                parser_err!(
-                    format!("Expected an expression, found: {}", v),
-                    self.peek_token().location
-                )
+                parser_err!(format!("Expected an expression, found: {}", v), start)
             }
             expr => self
                 .parse_optional_alias(keywords::RESERVED_FOR_COLUMN_ALIAS)
